@@ -945,3 +945,14 @@ fn test_import_and_attr_assignment_locations() {
         assert_eq!(err.range(), None);
     }
 }
+
+#[test]
+fn test_empty_expression_error_has_line() {
+    let env = Environment::new();
+    for source in ["", "  ", "\n\n"] {
+        let err = env.compile_expression(source).unwrap_err();
+        assert_eq!(err.kind(), ErrorKind::SyntaxError);
+        assert_eq!(err.name(), Some("<expression>"));
+        assert_eq!(err.line(), Some(1));
+    }
+}
